@@ -18,7 +18,7 @@ SPEC = dict(
         "reload deadlock verdict: reload goroutine parked in WaitGroup.Wait and a watch goroutine parked on the cluster mutex for 20 s with nothing else running is the witness (the property there is termination of the reload)",
     ],
     runs=[
-        dict(pkg=_PKG, run="^TestVerifC15(Systematic|Histories|Rekeyed|Reconnect|TwoStreams|GapAfterSnapshot|GetRetry|EndToEnd|RealConnState|ReaderStorm)$", timeout=240, timeout_thorough=3000),
+        dict(pkg=_PKG, run="^TestVerifC15(Systematic|Histories|Rekeyed|Reconnect|TwoStreams|GapAfterSnapshot|GetRetry|EndToEnd|RealConnState|QuickReconnect|ReaderStorm)$", timeout=240, timeout_thorough=3000),
         # own process: a deadlocked cluster leaves parked goroutines behind
         dict(pkg=_PKG, run="^TestVerifC15(ReloadInflight|JoinDuringReload)$", timeout=240, timeout_thorough=3000),
         # own process: creates (and fails to create) a real etcd client
